@@ -67,7 +67,9 @@ def generate(seed, tier, idx=0):
     shape = rng.random()
     huge = n > 1000           # first well over a thousand events pending, then removals
     w = {"add": 5, "readd": 1, "remove": 2, "remove_absent": 0.5, "pop": 2,
-         "peek": 1, "contains": 1, "size": 0.5, "is_empty": 0.5, "clear": 0.15}
+         "peek": 1, "contains": 1, "size": 0.5, "is_empty": 0.5, "clear": 0.15,
+         # looking at the list (printing, logging, a debugger) must not change it
+         "show": 0.5 if n <= 100 else 0.03}      # (printing a long list is slow)
     if rng.random() < 0.03:
         # elsewhere in the process a simulator is initialised (and cleaned up) while
         # events of this list are alive: ids must keep following creation order
@@ -272,6 +274,11 @@ def run_history(case):
             pass
         elif name == "is_empty":
             pass
+        elif name == "show":
+            str(el)
+            repr(el)
+            "%s" % (el,)
+            mutated = True        # (so that the drain comparison runs afterwards)
         elif name == "sim_init":
             _other_simulator_initialized()
             info["sim_inits"] = info.get("sim_inits", 0) + 1
